@@ -570,6 +570,35 @@ func (h *harness) hostile(s Step) error {
 		tag := tags[s.Var%len(tags)]
 		desc = fmt.Sprintf("message with union tag %d and a null body", tag)
 		allow("return", "abort", "unimplemented", "silent")
+		// the peer's own books: an all-default Bootstrap asks question 0, an all-default Finish finishes it and
+		// (releaseResultCaps defaults to true) gives its result capabilities back
+		switch tag {
+		case 8:
+			if !has(h.liveAnswers, 0) {
+				h.liveAnswers = append(h.liveAnswers, 0)
+				if !h.c.NoBootstrap {
+					h.answerCaps[0] = 1
+				}
+			}
+		case 2:
+			if !has(h.liveAnswers, 0) {
+				h.liveAnswers = append(h.liveAnswers, 0) // answered with an exception; no capabilities
+			}
+		case 4:
+			if has(h.liveAnswers, 0) {
+				for i, q := range h.liveAnswers {
+					if q == 0 {
+						h.liveAnswers = append(h.liveAnswers[:i], h.liveAnswers[i+1:]...)
+						break
+					}
+				}
+				h.finishedAnswers = append(h.finishedAnswers, 0)
+				if n := h.answerCaps[0]; n > 0 && h.exportRefs >= n {
+					h.exportRefs -= n
+				}
+				delete(h.answerCaps, 0)
+			}
+		}
 		err = push(func(m rpccp.Message) error {
 			m.Struct.SetUint16(0, tag)
 			return nil
